@@ -24,12 +24,16 @@ UNIT_TIMEOUT = 1800
 
 # grammar sets: (root variants, imported variants, probe alphabet)
 GSETS = [
-    (["import 'b.pg';\nE: E '+' E | E '*' E | b.N;\n",
-      "import 'b.pg';\nE: E '+' E | b.N;\n"],
-     ["N: 'n';\n", "N: 'n' | 'm';\n"], "nm+*"),
-    (["import 'b.pg';\nS: b.A S | EMPTY;\n",
-      "import 'b.pg';\nS: S b.A | b.A;\n"],
-     ["A: 'a' | 'b';\n", "A: 'a';\n"], "ab"),
+    dict(files={"g.pg": ["import 'b.pg';\nE: E '+' E | E '*' E | b.N;\n",
+                         "import 'b.pg';\nE: E '+' E | b.N;\n"],
+                "b.pg": ["N: 'n';\n", "N: 'n' | 'm';\n"]}, alpha="nm+*"),
+    dict(files={"g.pg": ["import 'b.pg';\nS: b.A S | EMPTY;\n",
+                         "import 'b.pg';\nS: S b.A | b.A;\n"],
+                "b.pg": ["A: 'a' | 'b';\n", "A: 'a';\n"]}, alpha="ab"),
+    # three-level import chain: root -> b -> c
+    dict(files={"g.pg": ["import 'b.pg';\nS: b.M S | b.M;\n"],
+                "b.pg": ["import 'c.pg';\nM: 'm' c.L | c.L;\n"],
+                "c.pg": ["L: 'a';\n", "L: 'a' | 'b';\n"]}, alpha="mab"),
 ]
 OPTS = {
     "LR": ("lr", {}),
@@ -122,7 +126,9 @@ class World:
     """one scratch directory, re-materialised from abstract states"""
 
     def __init__(self, gset):
-        self.roots, self.imps, self.alpha = GSETS[gset]
+        self.files = GSETS[gset]["files"]
+        self.names = sorted(self.files)
+        self.alpha = GSETS[gset]["alpha"]
         self.d = tempfile.mkdtemp(prefix="pgmc-c12-")
         self.oracle_cache = {}
         self.twin_cache = {}
@@ -131,24 +137,30 @@ class World:
         shutil.rmtree(self.d, ignore_errors=True)
 
     def materialize(self, st):
-        r, i, files, order = st
+        v, files, order = st
         d = self.d
         for f in os.listdir(d):
             os.remove(os.path.join(d, f))
-        open(os.path.join(d, "g.pg"), "w").write(self.roots[r])
-        open(os.path.join(d, "b.pg"), "w").write(self.imps[i])
+        self.write_grammar(d, v)
         for name, data in files:
             open(os.path.join(d, name), "wb").write(data)
         for t, f in enumerate(order):
             os.utime(os.path.join(d, f), (1000 + 10 * t, 1000 + 10 * t))
 
-    def snapshot(self, r, i, old_order, touched):
+    def write_grammar(self, d, v):
+        for name, k in zip(self.names, v):
+            open(os.path.join(d, name), "w").write(self.files[name][k])
+
+    def text(self, v):
+        return "".join(f"# {n}\n{self.files[n][k]}" for n, k in zip(self.names, v))
+
+    def snapshot(self, v, old_order, touched):
         d = self.d
         files = []
         for f in sorted(os.listdir(d)):
-            if f not in ("g.pg", "b.pg"):
+            if f not in self.files:
                 files.append((f, open(os.path.join(d, f), "rb").read()))
-        present = {"g.pg", "b.pg"} | {f for f, _ in files}
+        present = set(self.files) | {f for f, _ in files}
         # files whose mtime moved past the logical clock were (re)written
         horizon = 1000 + 10 * len(old_order)
         moved = [f for f in sorted(present)
@@ -157,28 +169,26 @@ class World:
         newest = list(touched) + moved
         order = [f for f in old_order if f in present and f not in newest] + \
             [f for f in newest if f in present]
-        return (r, i, tuple(files), tuple(order)), moved
+        return (v, tuple(files), tuple(order)), moved
 
-    def oracle(self, r, i, opt):
+    def oracle(self, v, opt):
         """no-cache oracle: the same construction from pristine copies of the
         current grammar files in an empty directory"""
-        k = (r, i, opt)
+        k = (v, opt)
         if k not in self.oracle_cache:
             d = tempfile.mkdtemp(prefix="pgmc-c12o-")
-            open(os.path.join(d, "g.pg"), "w").write(self.roots[r])
-            open(os.path.join(d, "b.pg"), "w").write(self.imps[i])
+            self.write_grammar(d, v)
             self.oracle_cache[k] = do_build(d, opt, self.alpha)
             shutil.rmtree(d)
         return self.oracle_cache[k]
 
-    def with_writers_table(self, r, i, writer_opt, opt):
+    def with_writers_table(self, v, writer_opt, opt):
         """cause oracle: the current construction given table= the table the
         writer's options produce (same Grammar object, no cache involved)"""
-        k = (r, i, writer_opt, opt)
+        k = (v, writer_opt, opt)
         if k not in self.twin_cache:
             d = tempfile.mkdtemp(prefix="pgmc-c12t-")
-            open(os.path.join(d, "g.pg"), "w").write(self.roots[r])
-            open(os.path.join(d, "b.pg"), "w").write(self.imps[i])
+            self.write_grammar(d, v)
             try:
                 with quiet():
                     g = Grammar.from_file(os.path.join(d, "g.pg"))
@@ -205,7 +215,8 @@ class World:
 def events(tier):
     ev = [("build", o) for o in BUILDERS]
     ev += [("build", "pglr"), ("build", "pglrps")]
-    ev += [("edit_root",), ("edit_imp",), ("touch", "g.pg"), ("touch", "b.pg"),
+    ev += [("edit", "g.pg"), ("edit", "b.pg"), ("edit", "c.pg"),
+           ("touch", "g.pg"), ("touch", "b.pg"), ("touch", "c.pg"),
            ("touch", "g.pgc"), ("delete",)]
     ev += [("crash", o, c) for o in ("LR", "GLR")
            for c in ("half", "before-last", "unflushed-half")]
@@ -214,9 +225,9 @@ def events(tier):
 
 def plan(tier, seed):
     if tier == "quick":
-        return dict(depth=3, gsets=[0, 1], byte_stride=8, op_stride=4,
+        return dict(depth=3, gsets=[0, 1, 2], byte_stride=8, op_stride=4,
                     rt_space="k3", rt_win=None)
-    return dict(depth=4, gsets=[0, 1], byte_stride=1, op_stride=1,
+    return dict(depth=4, gsets=[0, 1, 2], byte_stride=1, op_stride=1,
                 rt_space="k4", rt_win=None)
 
 
@@ -228,6 +239,8 @@ def units(tier, seed):
         for first in range(nev):
             out.append(dict(kind="bfs", gset=gs, first=first, depth=pl["depth"]))
         for r in (0, 1):
+            if gs == 2:
+                continue
             for w in ("LR", "GLR"):
                 out.append(dict(kind="crash", gset=gs, r=r, writer=w,
                                 byte_stride=pl["byte_stride"],
@@ -250,33 +263,33 @@ def worker_init():
 
 
 def canon(st):
-    r, i, files, order = st
-    return digest([r, i, [(f, hashlib.sha256(b).hexdigest()) for f, b in files],
+    v, files, order = st
+    return digest([list(v), [(f, hashlib.sha256(b).hexdigest()) for f, b in files],
                    list(order)])
 
 
 def judge_build(world, judge, stats, st, writer, opt, got, hist):
     """invariant after a build: behaves exactly like the no-cache oracle"""
-    r, i, files, order = st
-    want = world.oracle(r, i, opt)
+    v, files, order = st
+    want = world.oracle(v, opt)
     stats["builds"] += 1
     if got == want:
         return
-    case = {"gset_root": world.roots[r], "imported": world.imps[i],
+    case = {"grammar_files": world.text(v),
             "history": [list(map(str, h)) for h in hist], "build": opt}
     pgc_fresh = False
     if any(f == "g.pgc" for f, _ in files):
         pos = {f: k for k, f in enumerate(order)}
-        pgc_fresh = pos.get("g.pgc", -1) > max(pos["g.pg"], pos["b.pg"])
+        pgc_fresh = pos.get("g.pgc", -1) > max(pos[f] for f in world.files)
     if pgc_fresh and writer is not None:
-        wo, wr, wi = writer
-        if (wr, wi) == (r, i) and TABLE_KEY[wo] != TABLE_KEY[opt]:
-            twin = world.with_writers_table(r, i, wo, opt)
+        wo, wv = writer
+        if wv == v and TABLE_KEY[wo] != TABLE_KEY[opt]:
+            twin = world.with_writers_table(v, wo, opt)
             if twin == got:
                 ks = judge.known_seen
                 ks["CACHE-IGNORES-OPTIONS"] = ks.get("CACHE-IGNORES-OPTIONS", 0) + 1
                 return
-    judge.deviation(None, "history", world.roots[r], str(hist),
+    judge.deviation(None, "history", world.text(v), str(hist),
                     "parser built over the cache differs from the no-cache "
                     "oracle", {"got": got, "want": want,
                                "writer": writer, "fresh": pgc_fresh}, case)
@@ -284,10 +297,14 @@ def judge_build(world, judge, stats, st, writer, opt, got, hist):
 
 def apply_event(world, judge, stats, st, writer, ev, hist):
     """executes one event with the real code; returns (new state, writer)"""
-    r, i, files, order = st
+    v, files, order = st
     d = world.d
     names = {f for f, _ in files}
     if ev[0] == "touch" and ev[1] == "g.pgc" and "g.pgc" not in names:
+        return None
+    if ev[0] in ("touch", "edit") and ev[1].endswith(".pg") and (
+            ev[1] not in world.files or
+            (ev[0] == "edit" and len(world.files[ev[1]]) < 2)):
         return None
     if ev[0] == "delete" and "g.pgc" not in names:
         return None
@@ -296,11 +313,11 @@ def apply_event(world, judge, stats, st, writer, ev, hist):
     w = writer
     if ev[0] == "build":
         got = do_build(d, ev[1], world.alpha)
-        ns, moved = world.snapshot(r, i, order, [])
+        ns, moved = world.snapshot(v, order, [])
         if OPTS[ev[1]][0] != "pglr":
             judge_build(world, judge, stats, st, writer, ev[1], got, hist + [ev])
         if "g.pgc" in moved:
-            w = (ev[1], r, i)
+            w = (ev[1], v)
         return ns, w
     if ev[0] == "crash":
         # the same build with the cache write interrupted
@@ -323,25 +340,21 @@ def apply_event(world, judge, stats, st, writer, ev, hist):
         if ev[2] == "unflushed-half":
             fs.drop_unflushed()
         stats["crash_events"] += 1
-        ns, moved = world.snapshot(r, i, order, [])
+        ns, moved = world.snapshot(v, order, [])
         if "g.pgc" in moved:
-            w = (ev[1], r, i) if dict(ns[2]).get("g.pgc") else writer
-            w = ("?",) + tuple(w[1:]) if False else w
+            w = (ev[1], v)
         return ns, w
-    if ev[0] == "edit_root":
-        r = 1 - r
-        open(os.path.join(d, "g.pg"), "w").write(world.roots[r])
-        touched = ["g.pg"]
-    elif ev[0] == "edit_imp":
-        i = 1 - i
-        open(os.path.join(d, "b.pg"), "w").write(world.imps[i])
-        touched = ["b.pg"]
+    if ev[0] == "edit":
+        k = world.names.index(ev[1])
+        v = v[:k] + (1 - v[k],) + v[k + 1:]
+        open(os.path.join(d, ev[1]), "w").write(world.files[ev[1]][v[k]])
+        touched = [ev[1]]
     elif ev[0] == "touch":
         touched = [ev[1]]
     elif ev[0] == "delete":
         os.remove(os.path.join(d, "g.pgc"))
         w = None
-    ns, _ = world.snapshot(r, i, order, touched)
+    ns, _ = world.snapshot(v, order, touched)
     return ns, w
 
 
@@ -350,7 +363,7 @@ def bfs_unit(u):
     judge = Judge(PROP, KNOWN)
     stats = collections.Counter()
     evs = events(None)
-    init = (0, 0, (), ("g.pg", "b.pg"))
+    init = (tuple(0 for _ in world.names), (), tuple(world.names))
     try:
         first = evs[u["first"]]
         res = apply_event(world, judge, stats, init, None, first, [])
@@ -393,16 +406,20 @@ def crash_unit(u):
     world = World(u["gset"])
     judge = Judge(PROP, KNOWN)
     stats = collections.Counter()
-    r, i = u["r"], 0
+    r = u["r"]
+    names = tuple(world.names)
+    gi = world.names.index("g.pg")
+    v = tuple(r if k == gi else 0 for k in range(len(names)))
+    vo = tuple(1 - r if k == gi else 0 for k in range(len(names)))
     # two start states: no cache yet / a complete older cache of the other
     # root variant (made stale by the edit)
-    starts = [(r, i, (), ("g.pg", "b.pg"))]
+    starts = [(v, (), names)]
     hashes = set()
     try:
-        world.materialize((1 - r, i, (), ("g.pg", "b.pg")))
+        world.materialize((vo, (), names))
         do_build(world.d, u["writer"], world.alpha)
-        old, _ = world.snapshot(1 - r, i, ("g.pg", "b.pg"), [])
-        stale = (r, i, old[2], tuple(f for f in old[3] if f != "g.pg") + ("g.pg",))
+        old, _ = world.snapshot(vo, names, [])
+        stale = (v, old[1], tuple(f for f in old[2] if f != "g.pg") + ("g.pg",))
         starts.append(stale)
         for st in starts:
             world.materialize(st)
@@ -421,14 +438,14 @@ def crash_unit(u):
                         pass
                     if variant == "unflushed" and not fs.drop_unflushed():
                         continue
-                    crashed, _ = world.snapshot(st[0], st[1], st[3], [])
+                    crashed, _ = world.snapshot(st[0], st[2], [])
                     hashes.add(canon(crashed))
                     stats["crash_points"] += 1
                     for opt in (u["writer"], "GLR" if u["writer"] == "LR" else "LR"):
                         world.materialize(crashed)
                         got = do_build(world.d, opt, world.alpha)
                         stats["transitions"] += 1
-                        writer = (u["writer"], st[0], st[1])
+                        writer = (u["writer"], st[0])
                         judge_build(world, judge, stats, crashed, writer, opt,
                                     got, [("crash", u["writer"], cp, variant)])
     finally:
